@@ -46,6 +46,9 @@ const (
 	kElem   // *field.Element: a value of the abstract field type α
 	kPoint  // *Element: Pt α
 	kScalar // *Scalar: its four limbs
+	kLimbs  // (pointer to) four uint64 limbs, in the packages internal/field and internal/scalar
+	kErr    // error: none, or the name of the package's error variable
+	kString // string
 )
 
 type slVar struct {
@@ -65,10 +68,13 @@ type slParam struct {
 type slSum struct {
 	goName, leanName string
 	params           []slParam
-	writes           []int // parameters written and handed back (index order)
-	appends          []int // parameters whose backing array may be appended into
-	rets             []int // parameters the result may share memory with
-	ret              slKind
+	writes           []int    // parameters written and handed back (index order)
+	appends          []int    // parameters whose backing array may be appended into
+	rets             []int    // parameters the result may share memory with
+	ret              slKind   // kind of the call's value in an expression
+	results          []slKind // results that are components of the returned tuple (after the written parameters)
+	retParam         int      // >= 0: the function returns this pointer parameter (not a tuple component)
+	owner            *slGen
 	usesH            bool
 	usesF, usesB     bool
 	aux              []string // loop bodies, emitted before the function
@@ -83,6 +89,11 @@ type slGen struct {
 	sums  map[string]*slSum
 	busy  map[string]bool
 	order []string
+	// the package being translated and, for internal/field and internal/scalar, where its Fiat-mode definitions are
+	pkgPath, fiatPkg, fiatNS string
+	bytesRoots               map[string]bool
+	mode, ns                 string            // slMode while translating this package; Lean namespace of its output
+	subs                     map[string]*slGen // generators of the packages this one may call into
 }
 
 type slFn struct {
@@ -98,13 +109,20 @@ type slFn struct {
 	usesH    bool
 	touched  map[*slVar]bool
 	loops    int
+	inIndex  int // >0 while translating an index or slice bound: a negative value there is a panic
 }
 
 func slKindOf(t types.Type) (slKind, bool) {
+	if isLimbType(t) {
+		return kLimbs, true
+	}
 	switch u := t.Underlying().(type) {
 	case *types.Basic:
 		if u.Info()&types.IsInteger != 0 {
 			return kNat, true
+		}
+		if u.Info()&types.IsString != 0 {
+			return kString, true
 		}
 	case *types.Slice:
 		if b, ok := u.Elem().Underlying().(*types.Basic); ok && b.Kind() == types.Uint8 {
@@ -123,6 +141,9 @@ func slKindOf(t types.Type) (slKind, bool) {
 		if t.String() == "hash.Hash" {
 			return kHash, true
 		}
+		if t.String() == "error" {
+			return kErr, true
+		}
 	case *types.Pointer:
 		switch u.Elem().String() {
 		case modPath + ".Element":
@@ -134,6 +155,11 @@ func slKindOf(t types.Type) (slKind, bool) {
 		}
 	}
 	return 0, false
+}
+
+// classed: kinds whose values are references into memory that may be shared
+func classed(k slKind) bool {
+	return k == kBytes || k == kBytesList || k == kPoint || k == kLimbs || k == kScalar
 }
 
 func leanKind(k slKind) string {
@@ -148,8 +174,12 @@ func leanKind(k slKind) string {
 		return "α"
 	case kPoint:
 		return "Pt α"
-	case kScalar:
+	case kScalar, kLimbs:
 		return "L4"
+	case kErr:
+		return "Option String"
+	case kString:
+		return "String"
 	}
 	return "Unit"
 }
@@ -175,7 +205,7 @@ func (f *slFn) newClass(params ...int) int {
 func (f *slFn) members(c int, except *slVar) []string {
 	var out []string
 	for _, v := range f.vars {
-		if v != except && (v.kind == kBytes || v.kind == kBytesList || v.kind == kPoint) && v.class == c {
+		if v != except && classed(v.kind) && v.class == c {
 			out = append(out, v.name)
 		}
 	}
@@ -351,8 +381,18 @@ func (f *slFn) natExpr(e ast.Expr) string {
 			return v.name
 		}
 	case *ast.IndexExpr:
+		if isLimbType(f.g.info.TypeOf(x.X)) {
+			l, _, _ := f.limbExpr(x.X)
+			c, ok := f.constVal(x.Index)
+			if fld := limbField(c); ok && fld != "" {
+				return slAtom(l) + "." + fld
+			}
+			f.fail("limb index")
+		}
 		b, _ := f.bytesExpr(x.X)
+		f.inIndex++
 		i := f.natExpr(x.Index)
+		f.inIndex--
 		t := f.fresh()
 		f.emit("let %s ← (%s)[%s]?", t, b, i)
 		return t
@@ -365,6 +405,21 @@ func (f *slFn) natExpr(e ast.Expr) string {
 			}
 			b, _ := f.bytesExpr(x.Args[0])
 			return "(" + b + ").length"
+		}
+		if selName(x.Fun) == "binary.BigEndian.Uint64" && len(x.Args) == 1 {
+			b, _ := f.bytesExpr(x.Args[0])
+			t := f.fresh()
+			f.emit("let %s ← Prim.beUint64 %s", t, slAtom(b))
+			return t
+		}
+		if _, isC := f.isConv(x); !isC {
+			if id, ok := x.Fun.(*ast.Ident); !ok || (id.Name != "len" && id.Name != "cap") {
+				r, _, k := f.call(x)
+				if k != kNat {
+					f.fail("call %s does not return an integer", nodeText(f.g.imp.fset, x.Fun))
+				}
+				return r
+			}
 		}
 		if to, ok := f.isConv(x); ok {
 			// uint(math.Ceil(float64(a) / float64(d)))
@@ -411,6 +466,11 @@ func (f *slFn) natExpr(e ast.Expr) string {
 		if !uns {
 			if x.Op == token.ADD && f.lengthLike(e) {
 				return fmt.Sprintf("(%s + %s)", a, b)
+			}
+			if x.Op == token.SUB && f.inIndex > 0 && f.lengthLike(x.X) && f.lengthLike(x.Y) {
+				t := f.fresh()
+				f.emit("let %s ← Prim.subNat %s %s", t, slAtom(a), slAtom(b))
+				return t
 			}
 			f.fail("signed arithmetic %s", x.Op)
 		}
@@ -480,12 +540,14 @@ func (f *slFn) bytesExpr(e ast.Expr) (string, int) {
 			return b, c
 		}
 		lo, hi := "0", "("+b+").length"
+		f.inIndex++
 		if x.Low != nil {
 			lo = f.natExpr(x.Low)
 		}
 		if x.High != nil {
 			hi = f.natExpr(x.High)
 		}
+		f.inIndex--
 		t := f.fresh()
 		f.emit("let %s ← Prim.slice %s %s %s", t, slAtom(b), slAtom(lo), slAtom(hi))
 		return t, c
@@ -711,18 +773,100 @@ func (f *slFn) baseVar(e ast.Expr) *slVar {
 }
 
 // call translates a call of a function of the module; returns (result expression, class, kind).
+// resolveCallee: the module function or method a call refers to, the generator that owns its package, its key
+// ("Name" or "Recv.Name") and the arguments with the receiver first.
+func (f *slFn) resolveCallee(x *ast.CallExpr) (*types.Func, *slGen, string, []ast.Expr) {
+	var fn *types.Func
+	var key string
+	var args []ast.Expr
+	switch fun := x.Fun.(type) {
+	case *ast.Ident:
+		fn, _ = f.g.info.Uses[fun].(*types.Func)
+		key = fun.Name
+		args = x.Args
+	case *ast.SelectorExpr:
+		if si := f.g.info.Selections[fun]; si != nil && si.Kind() == types.MethodVal {
+			if m, ok := si.Obj().(*types.Func); ok {
+				fn = m
+				key = recvTypeName(m.Type().(*types.Signature).Recv().Type()) + "." + m.Name()
+				args = append([]ast.Expr{fun.X}, x.Args...)
+			}
+		} else if pk, ok := fun.X.(*ast.Ident); ok {
+			if _, isPkg := f.g.info.Uses[pk].(*types.PkgName); isPkg {
+				fn, _ = f.g.info.Uses[fun.Sel].(*types.Func)
+				key = fun.Sel.Name
+				args = x.Args
+			}
+		}
+	}
+	if fn == nil || fn.Pkg() == nil {
+		return nil, nil, "", nil
+	}
+	og := f.g
+	if fn.Pkg().Path() != f.g.pkgPath {
+		og = f.g.subs[fn.Pkg().Path()]
+	}
+	if og == nil {
+		return nil, nil, "", nil
+	}
+	return fn, og, key, args
+}
+
+func (g *slGen) fiatSig(key string) *fiatSig {
+	if g.fiatPkg == "" || g.bytesRoots[key] || strings.Contains(key, ".") {
+		return nil
+	}
+	return fiatSigs[g.fiatPkg][key]
+}
+
+// translateIn translates a function of this generator's package under its own reading of the types
+func (g *slGen) translateIn(key string) *slSum {
+	old := slMode
+	slMode = g.mode
+	defer func() { slMode = old }()
+	return g.translate(key)
+}
+
+func recvTypeName(t types.Type) string {
+	if p, ok := t.(*types.Pointer); ok {
+		t = p.Elem()
+	}
+	if n, ok := t.(*types.Named); ok {
+		return n.Obj().Name()
+	}
+	return "?"
+}
+
+func hasInt(xs []int, x int) bool {
+	for _, y := range xs {
+		if y == x {
+			return true
+		}
+	}
+	return false
+}
+
+// call translates a call of a function or method of the package being translated (or of one of its Fiat-mode
+// definitions); returns (value of the call as an expression, its alias class, its kind).
 func (f *slFn) call(x *ast.CallExpr) (string, int, slKind) {
-	id, ok := x.Fun.(*ast.Ident)
-	if !ok {
+	fn, og, key, callArgs := f.resolveCallee(x)
+	if fn == nil {
 		f.fail("call %s", nodeText(f.g.imp.fset, x.Fun))
 	}
-	fn, ok := f.g.info.Uses[id].(*types.Func)
-	if !ok || fn.Pkg() == nil || fn.Pkg().Path() != modPath {
-		f.fail("call %s", nodeText(f.g.imp.fset, x.Fun))
+	if sg := og.fiatSig(key); sg != nil {
+		r := f.fiatCall(x, sg, og.fiatNS)
+		if r == "" {
+			return "", -1, kUnit
+		}
+		return r, -1, kNat
 	}
-	s := f.g.translate(fn.Name())
+	s := og.translateIn(key)
 	if s.failed != "" {
-		f.fail("callee %s not translated", fn.Name())
+		f.fail("callee %s not translated", key)
+	}
+	callee := s.leanName
+	if og != f.g {
+		callee = og.ns + "." + callee
 	}
 	var args []string
 	var argVars []*slVar
@@ -746,7 +890,7 @@ func (f *slFn) call(x *ast.CallExpr) (string, int, slKind) {
 				f.fail("variadic forwarding")
 			}
 			var el []string
-			for _, a := range x.Args[i:] {
+			for _, a := range callArgs[i:] {
 				b, c := f.bytesExpr(a)
 				el = append(el, b)
 				argClass = append(argClass, c)
@@ -755,16 +899,42 @@ func (f *slFn) call(x *ast.CallExpr) (string, int, slKind) {
 			argVars = append(argVars, nil)
 			continue
 		}
-		a := x.Args[i]
+		if i >= len(callArgs) {
+			f.fail("call arity")
+		}
+		a := callArgs[i]
 		switch p.kind {
 		case kNat:
 			args = append(args, slAtom(f.natExpr(a)))
 			argVars = append(argVars, nil)
 			argClass = append(argClass, -1)
 		case kBytes:
+			if c, ok := a.(*ast.CallExpr); ok {
+				if to, ok := f.isConv(c); ok {
+					if _, isArr := to.Underlying().(*types.Array); isArr {
+						args = append(args, f.toArray(a))
+						argVars = append(argVars, nil)
+						argClass = append(argClass, f.newClass())
+						continue
+					}
+				}
+			}
 			b, c := f.bytesExpr(a)
 			args = append(args, slAtom(b))
 			argVars = append(argVars, f.baseVar(a))
+			argClass = append(argClass, c)
+		case kString:
+			args = append(args, slAtom(f.strExpr(a)))
+			argVars = append(argVars, nil)
+			argClass = append(argClass, -1)
+		case kLimbs, kScalar:
+			e, c, v := f.limbExpr(a)
+			if v == nil && hasInt(s.writes, i) {
+				v = f.tmpVar(kLimbs, c, e)
+				e = v.name
+			}
+			args = append(args, slAtom(e))
+			argVars = append(argVars, v)
 			argClass = append(argClass, c)
 		case kHash:
 			v := f.baseVar(a)
@@ -785,9 +955,9 @@ func (f *slFn) call(x *ast.CallExpr) (string, int, slKind) {
 		if v == nil {
 			f.fail("%s writes its argument %d, which is not a variable here", s.goName, w)
 		}
-		if v.kind == kBytes {
+		if v.kind == kBytes || v.kind == kLimbs {
 			for j, c := range argClass {
-				if j != w && c == v.class {
+				if j != w && c == v.class && c >= 0 {
 					f.fail("%s writes argument %d, which may share memory with argument %d", s.goName, w, j)
 				}
 			}
@@ -797,13 +967,16 @@ func (f *slFn) call(x *ast.CallExpr) (string, int, slKind) {
 		f.write(argVars[w], true, "call of "+s.goName)
 	}
 	for _, w := range s.writes {
-		f.write(argVars[w], false, "call of "+s.goName)
+		if argVars[w].declPos != token.NoPos || argVars[w].param >= 0 {
+			f.write(argVars[w], false, "call of "+s.goName)
+		}
 		outs = append(outs, argVars[w].name)
 	}
-	res := ""
-	if s.ret != kUnit {
-		res = f.fresh()
-		outs = append(outs, res)
+	var results []string
+	for range s.results {
+		r := f.fresh()
+		results = append(results, r)
+		outs = append(outs, r)
 	}
 	lhs := "_"
 	if len(outs) == 1 {
@@ -811,9 +984,15 @@ func (f *slFn) call(x *ast.CallExpr) (string, int, slKind) {
 	} else if len(outs) > 1 {
 		lhs = "(" + strings.Join(outs, ", ") + ")"
 	}
-	f.emit("let %s ← %s %s", lhs, s.leanName, strings.Join(args, " "))
+	f.emit("let %s ← %s %s", lhs, callee, strings.Join(args, " "))
+	if s.retParam >= 0 && len(s.results) == 0 {
+		return argVars[s.retParam].name, argClass[s.retParam], s.params[s.retParam].kind
+	}
+	if len(s.results) != 1 {
+		return "", -1, kUnit
+	}
 	cls := -1
-	if s.ret == kBytes {
+	if s.ret == kBytes || s.ret == kLimbs {
 		switch len(s.rets) {
 		case 0:
 			cls = f.newClass()
@@ -823,7 +1002,7 @@ func (f *slFn) call(x *ast.CallExpr) (string, int, slKind) {
 			f.fail("%s may return memory of several arguments", s.goName)
 		}
 	}
-	return res, cls, s.ret
+	return results[0], cls, s.ret
 }
 
 func (f *slFn) cond(e ast.Expr) string {
@@ -835,6 +1014,13 @@ func (f *slFn) cond(e ast.Expr) string {
 			return "¬ (" + f.cond(x.X) + ")"
 		}
 	case *ast.BinaryExpr:
+		if k, ok := slKindOf(f.g.info.TypeOf(x.X)); ok && k == kErr && (x.Op == token.NEQ || x.Op == token.EQL) {
+			o := "="
+			if x.Op == token.NEQ {
+				o = "≠"
+			}
+			return fmt.Sprintf("%s %s %s", f.errExpr(x.X), o, f.errExpr(x.Y))
+		}
 		op := map[token.Token]string{token.LSS: "<", token.LEQ: "≤", token.GTR: ">", token.GEQ: "≥", token.EQL: "=", token.NEQ: "≠"}
 		if o, ok := op[x.Op]; ok {
 			return fmt.Sprintf("%s %s %s", f.natExpr(x.X), o, f.natExpr(x.Y))
@@ -945,6 +1131,9 @@ func (f *slFn) declare(id *ast.Ident, k slKind, class int) *slVar {
 		f.fail("declaration of %s", id.Name)
 	}
 	name := id.Name
+	if strings.HasPrefix(name, "_") {
+		name = "u" + name
+	}
 	switch name {
 	case "at", "from", "at_", "end", "fun", "then", "else", "do", "let", "in", "open", "by", "show", "have", "type", "local":
 		name = name + "_"
@@ -957,7 +1146,7 @@ func (f *slFn) declare(id *ast.Ident, k slKind, class int) *slVar {
 func (f *slFn) snapshotPartition(vs map[types.Object]*slVar) string {
 	byClass := map[int][]string{}
 	for _, v := range vs {
-		if v.kind == kBytes || v.kind == kBytesList || v.kind == kPoint {
+		if classed(v.kind) {
 			byClass[v.class] = append(byClass[v.class], v.name)
 		}
 	}
@@ -1039,6 +1228,20 @@ func (f *slFn) assign(lhs ast.Expr, rhs ast.Expr, define bool) {
 			return
 		}
 		f.fail("hash value from %s", nodeText(f.g.imp.fset, rhs))
+	case kLimbs:
+		e, c, _ := f.limbExpr(rhs)
+		if isNew {
+			v = f.declare(id, kLimbs, c)
+		} else {
+			v = f.lookup(id)
+			if v.class != c {
+				v.reassign = true
+			}
+			v.class = c
+		}
+		if e != v.name {
+			f.emit("let %s : L4 := %s", v.name, e)
+		}
 	case kElem, kPoint, kScalar:
 		e, c, ek := f.opaqueExpr(rhs)
 		if ek != k {
@@ -1068,10 +1271,24 @@ func (f *slFn) stmt(s ast.Stmt) {
 		for _, sp := range gd.Specs {
 			vs := sp.(*ast.ValueSpec)
 			if len(vs.Values) != 0 {
-				f.fail("var with initialiser")
+				if len(vs.Values) != len(vs.Names) {
+					f.fail("var with initialiser")
+				}
+				for i, id := range vs.Names {
+					f.assign(id, vs.Values[i], true)
+				}
+				continue
 			}
 			for _, id := range vs.Names {
 				t := f.g.info.TypeOf(id)
+				if isLimbType(t) {
+					if _, isPtr := t.Underlying().(*types.Pointer); isPtr {
+						f.fail("nil limb pointer %s", id.Name)
+					}
+					v := f.declare(id, kLimbs, f.newClass())
+					f.emit("let %s : L4 := ⟨0, 0, 0, 0⟩", v.name)
+					continue
+				}
 				if a, ok := t.Underlying().(*types.Array); ok {
 					if k, ok := slKindOf(t); ok && k == kBytes {
 						v := f.declare(id, kBytes, f.newClass())
@@ -1083,6 +1300,19 @@ func (f *slFn) stmt(s ast.Stmt) {
 			}
 		}
 	case *ast.AssignStmt:
+		if len(x.Lhs) == 2 && len(x.Rhs) == 1 && x.Tok == token.DEFINE {
+			if c, ok := x.Rhs[0].(*ast.CallExpr); ok && selName(c.Fun) == "hex.DecodeString" && len(c.Args) == 1 {
+				b, okB := x.Lhs[0].(*ast.Ident)
+				e, okE := x.Lhs[1].(*ast.Ident)
+				if okB && okE && f.g.info.Defs[b] != nil && f.g.info.Defs[e] != nil {
+					arg := f.strExpr(c.Args[0])
+					bv := f.declare(b, kBytes, f.newClass())
+					ev := f.declare(e, kErr, -1)
+					f.emit("let (%s, %s) := Prim.hexDecodeString %s", bv.name, ev.name, slAtom(arg))
+					return
+				}
+			}
+		}
 		// _, _ = h.Write(x)
 		if len(x.Lhs) == 2 && len(x.Rhs) == 1 {
 			if c, ok := x.Rhs[0].(*ast.CallExpr); ok {
@@ -1125,6 +1355,9 @@ func (f *slFn) stmt(s ast.Stmt) {
 			f.fail("multiple assignment")
 		}
 		if ix, ok := x.Lhs[0].(*ast.IndexExpr); ok {
+			if x.Tok == token.ASSIGN && f.limbStore(ix, x.Rhs[0]) {
+				return
+			}
 			v := f.baseVar(ix.X)
 			if v == nil || v.kind != kBytes {
 				f.fail("index store into %s", nodeText(f.g.imp.fset, ix.X))
@@ -1166,6 +1399,20 @@ func (f *slFn) stmt(s ast.Stmt) {
 				f.emit("let _ ← (none : Option Unit)")
 				return
 			case "copy":
+				if sl, ok := c.Args[0].(*ast.SliceExpr); ok && sl.High == nil && sl.Low != nil && !sl.Slice3 {
+					// copy(dst[lo:], src)
+					v := f.baseVar(sl.X)
+					if v == nil || v.kind != kBytes {
+						f.fail("copy destination")
+					}
+					f.inIndex++
+					lo := f.natExpr(sl.Low)
+					f.inIndex--
+					src, _ := f.bytesExpr(c.Args[1])
+					f.write(v, false, "copy")
+					f.emit("let %s ← Prim.copyAt %s %s %s", v.name, v.name, slAtom(lo), slAtom(src))
+					return
+				}
 				v := f.baseVar(c.Args[0])
 				if v == nil || v.kind != kBytes {
 					f.fail("copy destination")
@@ -1200,6 +1447,38 @@ func (f *slFn) stmt(s ast.Stmt) {
 				}
 				f.fail("scalar.HashToFieldElement destination")
 			}
+			if selName(sel) == "binary.BigEndian.PutUint64" && len(c.Args) == 2 {
+				sl, ok := c.Args[0].(*ast.SliceExpr)
+				if !ok || sl.Slice3 {
+					f.fail("PutUint64 destination")
+				}
+				v := f.baseVar(sl.X)
+				if v == nil || v.kind != kBytes {
+					f.fail("PutUint64 destination")
+				}
+				lo, hi := "0", v.name+".length"
+				f.inIndex++
+				if sl.Low != nil {
+					lo = f.natExpr(sl.Low)
+				}
+				if sl.High != nil {
+					hi = f.natExpr(sl.High)
+				}
+				f.inIndex--
+				val := f.natExpr(c.Args[1])
+				if w, u := bitsOf(f.g.info.TypeOf(c.Args[1])); w != 64 || !u {
+					f.fail("PutUint64 value")
+				}
+				f.write(v, false, "PutUint64")
+				f.emit("let %s ← Prim.putUint64BE %s %s %s %s", v.name, v.name, slAtom(lo), slAtom(hi), slAtom(val))
+				return
+			}
+			if selInfo := f.g.info.Selections[sel]; selInfo != nil && selInfo.Kind() == types.MethodVal {
+				if _, ok := slKindOf(f.g.info.TypeOf(sel.X)); ok {
+					f.call(c)
+					return
+				}
+			}
 			if selName(sel) == "binary.BigEndian.PutUint16" && len(c.Args) == 2 {
 				sl, ok := c.Args[0].(*ast.SliceExpr)
 				if !ok || sl.High != nil || sl.Slice3 {
@@ -1221,6 +1500,10 @@ func (f *slFn) stmt(s ast.Stmt) {
 				f.emit("let %s ← Prim.putUint16BE %s %s %s", v.name, v.name, slAtom(off), slAtom(val))
 				return
 			}
+		}
+		if fn, _, _, _ := f.resolveCallee(c); fn != nil {
+			f.call(c)
+			return
 		}
 		f.fail("statement %s", nodeText(f.g.imp.fset, s))
 	case *ast.IncDecStmt:
@@ -1485,6 +1768,226 @@ func (f *slFn) rangeStmt(x *ast.RangeStmt) {
 	}
 }
 
+type slState struct {
+	vars    map[types.Object]*slVar
+	class   map[*slVar]int
+	re      map[*slVar]bool
+	classes map[int]map[int]bool
+}
+
+func (f *slFn) saveState() slState {
+	st := slState{vars: map[types.Object]*slVar{}, class: map[*slVar]int{}, re: map[*slVar]bool{}, classes: map[int]map[int]bool{}}
+	for o, v := range f.vars {
+		st.vars[o] = v
+		st.class[v] = v.class
+		st.re[v] = v.reassign
+	}
+	for c, m := range f.classes {
+		mm := map[int]bool{}
+		for p := range m {
+			mm[p] = true
+		}
+		st.classes[c] = mm
+	}
+	return st
+}
+
+func (f *slFn) restoreState(st slState) {
+	f.vars = map[types.Object]*slVar{}
+	for o, v := range st.vars {
+		f.vars[o] = v
+		v.class = st.class[v]
+		v.reassign = st.re[v]
+	}
+	f.classes = map[int]map[int]bool{}
+	for c, m := range st.classes {
+		mm := map[int]bool{}
+		for p := range m {
+			mm[p] = true
+		}
+		f.classes[c] = mm
+	}
+}
+
+func endsInReturn(list []ast.Stmt) bool {
+	if len(list) == 0 {
+		return false
+	}
+	_, ok := list[len(list)-1].(*ast.ReturnStmt)
+	return ok
+}
+
+func containsReturn(n ast.Node) bool {
+	found := false
+	ast.Inspect(n, func(m ast.Node) bool {
+		if _, ok := m.(*ast.ReturnStmt); ok {
+			found = true
+		}
+		return !found
+	})
+	return found
+}
+
+// capture runs body with the output redirected to a fresh, deeper indented buffer
+func (f *slFn) capture(body func()) []string {
+	outer, oldInd := f.lines, f.ind
+	var ls []string
+	f.lines = &ls
+	f.ind = oldInd + "    "
+	body()
+	f.lines, f.ind = outer, oldInd
+	return ls
+}
+
+// tailBlock translates statements in tail position: a `return` ends the block, an `if … { …; return }` guard or a `switch`
+// whose clauses return becomes an if-then-else whose else branch is the rest of the block.
+func (f *slFn) tailBlock(stmts []ast.Stmt, finish func([]ast.Expr)) {
+	for i, st := range stmts {
+		switch x := st.(type) {
+		case *ast.ReturnStmt:
+			finish(x.Results)
+			return
+		case *ast.IfStmt:
+			if containsReturn(x) {
+				if x.Else != nil || !endsInReturn(x.Body.List) {
+					f.fail("return inside an if that is not a guard")
+				}
+				if x.Init != nil {
+					f.stmt(x.Init)
+				}
+				c := f.cond(x.Cond)
+				st0 := f.saveState()
+				thenL := f.capture(func() { f.tailBlock(x.Body.List, finish) })
+				f.restoreState(st0)
+				elseL := f.capture(func() { f.tailBlock(stmts[i+1:], finish) })
+				f.emit("if %s then (do", c)
+				*f.lines = append(*f.lines, thenL...)
+				(*f.lines)[len(*f.lines)-1] += ") else (do"
+				*f.lines = append(*f.lines, elseL...)
+				(*f.lines)[len(*f.lines)-1] += ")"
+				return
+			}
+		case *ast.SwitchStmt:
+			if containsReturn(x) {
+				f.tailSwitch(x, stmts[i+1:], finish)
+				return
+			}
+		}
+		f.stmt(st)
+	}
+	finish(nil)
+}
+
+func (f *slFn) tailSwitch(x *ast.SwitchStmt, rest []ast.Stmt, finish func([]ast.Expr)) {
+	if x.Init != nil || x.Tag == nil {
+		f.fail("switch form")
+	}
+	tag := f.fresh()
+	f.emit("let %s := %s", tag, f.natExpr(x.Tag))
+	var clauses []*ast.CaseClause
+	for _, c := range x.Body.List {
+		clauses = append(clauses, c.(*ast.CaseClause))
+	}
+	for i, c := range clauses {
+		if c.List == nil && i != len(clauses)-1 {
+			f.fail("default clause that is not the last")
+		}
+	}
+	var chain func(k int)
+	chain = func(k int) {
+		if k == len(clauses) {
+			f.tailBlock(rest, finish)
+			return
+		}
+		c := clauses[k]
+		body := c.Body
+		if n := len(body); n > 0 {
+			if b, ok := body[n-1].(*ast.BranchStmt); ok && b.Tok == token.BREAK && b.Label == nil {
+				body = body[:n-1]
+			}
+		}
+		for _, st := range body {
+			ast.Inspect(st, func(m ast.Node) bool {
+				if b, ok := m.(*ast.BranchStmt); ok {
+					f.fail("%s inside a switch clause", b.Tok)
+				}
+				return true
+			})
+		}
+		full := body
+		if !endsInReturn(body) {
+			full = append(append([]ast.Stmt{}, body...), rest...)
+		}
+		if c.List == nil {
+			f.tailBlock(full, finish)
+			return
+		}
+		var cs []string
+		for _, e := range c.List {
+			cs = append(cs, fmt.Sprintf("%s = %s", tag, f.natExpr(e)))
+		}
+		st0 := f.saveState()
+		thenL := f.capture(func() { f.tailBlock(full, finish) })
+		f.restoreState(st0)
+		elseL := f.capture(func() { chain(k + 1) })
+		f.emit("if %s then (do", strings.Join(cs, " ∨ "))
+		*f.lines = append(*f.lines, thenL...)
+		(*f.lines)[len(*f.lines)-1] += ") else (do"
+		*f.lines = append(*f.lines, elseL...)
+		(*f.lines)[len(*f.lines)-1] += ")"
+	}
+	chain(0)
+}
+
+// errExpr: nil, a package-level error variable (by name), a local error value, or fmt.Errorf("%w", e)
+func (f *slFn) errExpr(e ast.Expr) string {
+	switch x := e.(type) {
+	case *ast.ParenExpr:
+		return f.errExpr(x.X)
+	case *ast.Ident:
+		if x.Name == "nil" {
+			return "none"
+		}
+		if v := f.lookup(x); v != nil && v.kind == kErr {
+			return v.name
+		}
+		if obj, ok := f.g.info.Uses[x].(*types.Var); ok && obj.Pkg() != nil && obj.Parent() == obj.Pkg().Scope() {
+			return fmt.Sprintf("(some %q)", x.Name)
+		}
+	case *ast.CallExpr:
+		if selName(x.Fun) == "fmt.Errorf" && len(x.Args) == 2 {
+			if tv := f.g.info.Types[x.Args[0]]; tv.Value != nil && tv.Value.ExactString() == "\"%w\"" {
+				return f.errExpr(x.Args[1])
+			}
+		}
+		r, _, k := f.call(x)
+		if k != kErr {
+			f.fail("call %s does not return an error", nodeText(f.g.imp.fset, x.Fun))
+		}
+		return r
+	}
+	f.fail("error expression %s", nodeText(f.g.imp.fset, e))
+	return ""
+}
+
+func (f *slFn) strExpr(e ast.Expr) string {
+	switch x := e.(type) {
+	case *ast.ParenExpr:
+		return f.strExpr(x.X)
+	case *ast.Ident:
+		if v := f.lookup(x); v != nil && v.kind == kString {
+			return v.name
+		}
+	case *ast.CallExpr:
+		if selName(x.Fun) == "hex.EncodeToString" && len(x.Args) == 1 {
+			b, _ := f.bytesExpr(x.Args[0])
+			return fmt.Sprintf("(Spec.toHex %s)", slAtom(b))
+		}
+	}
+	f.fail("string expression %s", nodeText(f.g.imp.fset, e))
+	return ""
+}
+
 func (g *slGen) translate(name string) *slSum {
 	if s, ok := g.sums[name]; ok {
 		if g.busy[name] {
@@ -1492,7 +1995,7 @@ func (g *slGen) translate(name string) *slSum {
 		}
 		return s
 	}
-	s := &slSum{goName: name, leanName: strings.ToLower(name[:1]) + name[1:]}
+	s := &slSum{goName: name, leanName: leanFnName(name), retParam: -1}
 	g.sums[name] = s
 	g.busy[name] = true
 	defer func() { g.busy[name] = false }()
@@ -1514,25 +2017,33 @@ func (g *slGen) translate(name string) *slSum {
 }
 
 func (g *slGen) fn(s *slSum, fd *ast.FuncDecl) {
-	if fd.Recv != nil {
-		panic("method")
-	}
 	var lines []string
 	f := &slFn{g: g, sum: s, vars: map[types.Object]*slVar{}, classes: map[int]map[int]bool{}, lines: &lines, ind: "  "}
+	s.retParam = -1
 	idx := 0
-	for _, fl := range fd.Type.Params.List {
+	var fields []*ast.Field
+	if fd.Recv != nil {
+		fields = append(fields, fd.Recv.List...)
+	}
+	fields = append(fields, fd.Type.Params.List...)
+	for _, fl := range fields {
+		if len(fl.Names) == 0 {
+			panic("unnamed parameter")
+		}
 		for _, id := range fl.Names {
 			t := g.info.TypeOf(id)
 			k, ok := slKindOf(t)
 			if !ok {
 				panic(fmt.Sprintf("parameter %s of type %s", id.Name, t))
 			}
-			if _, isArr := t.Underlying().(*types.Array); isArr {
-				panic("array parameter")
-			}
+			_, byValue := t.Underlying().(*types.Array)
 			cls := -1
-			if k == kBytes || k == kBytesList {
-				cls = f.newClass(idx)
+			if classed(k) {
+				if byValue {
+					cls = f.newClass() // an array parameter is a copy: writes to it stay in the callee
+				} else {
+					cls = f.newClass(idx)
+				}
 			}
 			v := f.declare(id, k, cls)
 			v.param = idx
@@ -1542,80 +2053,135 @@ func (g *slGen) fn(s *slSum, fd *ast.FuncDecl) {
 			idx++
 		}
 	}
-	s.ret = kUnit
+	var resKinds []slKind
+	var resPtr []bool
 	if fd.Type.Results != nil {
-		if len(fd.Type.Results.List) != 1 || len(fd.Type.Results.List[0].Names) > 1 {
-			panic("several results")
+		for _, fl := range fd.Type.Results.List {
+			if len(fl.Names) > 0 {
+				panic("named results")
+			}
+			t := g.info.TypeOf(fl.Type)
+			k, ok := slKindOf(t)
+			if !ok || k == kHash || k == kBytesList {
+				panic("result type")
+			}
+			if _, isArr := t.Underlying().(*types.Array); isArr {
+				panic("array result")
+			}
+			_, isPtr := t.Underlying().(*types.Pointer)
+			resKinds = append(resKinds, k)
+			resPtr = append(resPtr, isPtr)
 		}
-		k, ok := slKindOf(g.info.TypeOf(fd.Type.Results.List[0].Type))
-		if !ok || k == kHash || k == kBytesList {
-			panic("result type")
-		}
-		if _, isArr := g.info.TypeOf(fd.Type.Results.List[0].Type).Underlying().(*types.Array); isArr {
-			panic("array result")
-		}
-		s.ret = k
 	}
-	body := fd.Body.List
-	var retExpr ast.Expr
-	if s.ret != kUnit {
-		r, ok := body[len(body)-1].(*ast.ReturnStmt)
-		if !ok || len(r.Results) != 1 {
-			panic("the function does not end with a return")
-		}
-		retExpr = r.Results[0]
-		body = body[:len(body)-1]
-	}
-	ast.Inspect(&ast.BlockStmt{List: body}, func(n ast.Node) bool {
+	ast.Inspect(fd.Body, func(n ast.Node) bool {
 		switch n.(type) {
-		case *ast.ReturnStmt:
-			panic("return that is not the last statement")
 		case *ast.FuncLit, *ast.GoStmt, *ast.DeferStmt:
 			panic("closure, go or defer")
 		}
 		return true
 	})
-	f.stmts(body)
-	res := ""
-	if retExpr != nil {
-		if s.ret == kBytes {
-			var c int
-			res, c = f.bytesExpr(retExpr)
-			for p := range f.classes[c] {
-				s.rets = append(s.rets, p)
-			}
-			sort.Ints(s.rets)
-		} else if s.ret == kNat {
-			res = f.natExpr(retExpr)
-		} else {
-			var k slKind
-			res, _, k = f.opaqueExpr(retExpr)
-			if k != s.ret {
-				panic("kind of the result")
+	// every return site evaluates its results and leaves a placeholder: the written parameters that precede them in the
+	// tuple are only known once the whole body has been read
+	var sites [][]string
+	first := true
+	finish := func(retExprs []ast.Expr) {
+		if len(retExprs) != len(resKinds) {
+			panic("a path through the function does not end with a return of its results")
+		}
+		var resExpr []string
+		var kinds []slKind
+		retParam := -1
+		for i, re := range retExprs {
+			switch resKinds[i] {
+			case kBytes:
+				res, c := f.bytesExpr(re)
+				for p := range f.classes[c] {
+					if !hasInt(s.rets, p) {
+						s.rets = append(s.rets, p)
+					}
+				}
+				sort.Ints(s.rets)
+				resExpr = append(resExpr, res)
+				kinds = append(kinds, kBytes)
+			case kNat:
+				resExpr = append(resExpr, f.natExpr(re))
+				kinds = append(kinds, kNat)
+			case kErr:
+				resExpr = append(resExpr, f.errExpr(re))
+				kinds = append(kinds, kErr)
+			case kString:
+				resExpr = append(resExpr, f.strExpr(re))
+				kinds = append(kinds, kString)
+			case kLimbs, kScalar:
+				res, c, v := f.limbExpr(re)
+				if resPtr[i] && v != nil && v.param >= 0 && !v.reassign && f.classes[v.class][v.param] {
+					// the function returns one of its pointer parameters: the caller already holds it
+					if retParam >= 0 {
+						panic("two parameters returned")
+					}
+					retParam = v.param
+					f.addWrite(v.param)
+					continue
+				}
+				for p := range f.classes[c] {
+					if !hasInt(s.rets, p) {
+						s.rets = append(s.rets, p)
+					}
+				}
+				sort.Ints(s.rets)
+				resExpr = append(resExpr, res)
+				kinds = append(kinds, resKinds[i])
+			default:
+				res, _, k := f.opaqueExpr(re)
+				if k != resKinds[i] {
+					panic("kind of the result")
+				}
+				resExpr = append(resExpr, res)
+				kinds = append(kinds, k)
 			}
 		}
+		if first {
+			s.results, s.retParam, first = kinds, retParam, false
+		} else if retParam != s.retParam || len(kinds) != len(s.results) {
+			panic("the return sites do not return the same parameter")
+		}
+		f.emit("pure ⟪%d⟫", len(sites))
+		sites = append(sites, resExpr)
+	}
+	f.tailBlock(fd.Body.List, finish)
+	s.ret = kUnit
+	if len(s.results) == 1 {
+		s.ret = s.results[0]
+	} else if len(s.results) == 0 && s.retParam >= 0 {
+		s.ret = s.params[s.retParam].kind
 	}
 	var outs, outT []string
 	for _, w := range s.writes {
 		pv := f.paramVar[w]
-		if pv.kind == kBytes && pv.reassign {
+		if (pv.kind == kBytes || pv.kind == kLimbs) && pv.reassign {
 			panic("written parameter " + pv.name + " is reassigned")
 		}
 		outs = append(outs, pv.name)
 		outT = append(outT, leanKind(pv.kind))
 	}
-	if s.ret != kUnit {
-		outs = append(outs, res)
-		outT = append(outT, leanKind(s.ret))
+	for _, k := range s.results {
+		outT = append(outT, leanKind(k))
 	}
-	switch len(outs) {
-	case 0:
-		f.emit("pure ()")
+	if len(outT) == 0 {
 		outT = []string{"Unit"}
-	case 1:
-		f.emit("pure %s", outs[0])
-	default:
-		f.emit("pure (%s)", strings.Join(outs, ", "))
+	}
+	for k, site := range sites {
+		all := append(append([]string{}, outs...), site...)
+		tup := "()"
+		if len(all) == 1 {
+			tup = all[0]
+		} else if len(all) > 1 {
+			tup = "(" + strings.Join(all, ", ") + ")"
+		}
+		ph := fmt.Sprintf("⟪%d⟫", k)
+		for li := range lines {
+			lines[li] = strings.Replace(lines[li], ph, tup, 1)
+		}
 	}
 	s.usesH = f.usesH
 	var b strings.Builder
@@ -1665,17 +2231,109 @@ func leanIntList(xs []int) string {
 	return "[" + strings.Join(s, ", ") + "]"
 }
 
-// genBytesMode writes Secp/Gen/Xmd.lean (the expander) and Secp/Gen/GroupAPI.lean (HashToScalar, HashToGroup, EncodeToGroup).
-func genBytesMode(outDir string) {
+func newSlGen(pkgPath, fiatPkg, fiatNS, mode, ns string) *slGen {
 	imp := sharedImporter
-	g := &slGen{imp: imp, info: imp.info, decls: map[string]*ast.FuncDecl{}, sums: map[string]*slSum{}, busy: map[string]bool{}}
-	for _, file := range imp.files[modPath] {
+	g := &slGen{imp: imp, info: imp.info, decls: map[string]*ast.FuncDecl{}, sums: map[string]*slSum{}, busy: map[string]bool{},
+		pkgPath: pkgPath, fiatPkg: fiatPkg, fiatNS: fiatNS, bytesRoots: map[string]bool{}, mode: mode, ns: ns, subs: map[string]*slGen{}}
+	for _, file := range imp.files[pkgPath] {
 		for _, d := range file.Decls {
-			if fd, ok := d.(*ast.FuncDecl); ok && fd.Recv == nil && fd.Body != nil {
-				g.decls[fd.Name.Name] = fd
+			if fd, ok := d.(*ast.FuncDecl); ok && fd.Body != nil {
+				key := fd.Name.Name
+				if fd.Recv != nil && len(fd.Recv.List) == 1 {
+					key = recvName(fd.Recv.List[0].Type) + "." + key
+				}
+				g.decls[key] = fd
 			}
 		}
 	}
+	return g
+}
+
+func (g *slGen) write(path, ns, imports, doc, opens string, names []string, roots []string) {
+	var b strings.Builder
+	b.WriteString(header)
+	b.WriteString(imports + "set_option linter.unusedVariables false\n\n" + doc + "namespace " + ns + "\n" + opens + "\n")
+	done := map[string]bool{}
+	var nt []string
+	for _, n := range names {
+		s := g.sums[n]
+		done[n] = true
+		if s.failed != "" {
+			fmt.Fprintf(&b, "-- NOT TRANSLATED: %s (%s)\n\n", n, s.failed)
+			nt = append(nt, n)
+			continue
+		}
+		b.WriteString(s.text + "\n")
+	}
+	for _, r := range roots {
+		if !done[r] {
+			fmt.Fprintf(&b, "-- NOT TRANSLATED: %s (%s)\n\n", r, g.sums[r].failed)
+			nt = append(nt, r)
+		}
+	}
+	sort.Strings(nt)
+	var wr, ap, sh []string
+	sorted := append([]string{}, names...)
+	sort.Strings(sorted)
+	for _, n := range sorted {
+		s := g.sums[n]
+		if s.failed != "" {
+			continue
+		}
+		for _, p := range s.writes {
+			if s.params[p].kind == kBytes {
+				wr = append(wr, fmt.Sprintf("(%q, %q)", n, s.params[p].name))
+			}
+		}
+		for _, p := range s.appends {
+			ap = append(ap, fmt.Sprintf("(%q, %q)", n, s.params[p].name))
+		}
+		for _, p := range s.rets {
+			if s.params[p].kind == kBytes {
+				sh = append(sh, fmt.Sprintf("(%q, %q)", n, s.params[p].name))
+			}
+		}
+	}
+	fmt.Fprintf(&b, "/-- functions of the list that could not be translated -/\ndef notTranslated : List String := [%s]\n\n", quoteJoin(nt))
+	fmt.Fprintf(&b, "/-- (function, slice parameter) pairs whose visible bytes the function overwrites -/\ndef callerMemoryWrites : List (String × String) := [%s]\n\n", strings.Join(wr, ", "))
+	fmt.Fprintf(&b, "/-- (function, slice parameter) pairs into whose backing array the function may append -/\ndef callerMemoryAppends : List (String × String) := [%s]\n\n", strings.Join(ap, ", "))
+	fmt.Fprintf(&b, "/-- (function, slice parameter) pairs where the returned slice may share memory with the parameter -/\ndef resultShares : List (String × String) := [%s]\n\n", strings.Join(sh, ", "))
+	b.WriteString("end " + ns + "\n")
+	writeIfChanged(path, b.String())
+}
+
+// genBytesMode writes Secp/Gen/Xmd.lean (the expander), Secp/Gen/GroupAPI.lean (HashToScalar, HashToGroup, EncodeToGroup),
+// Secp/Gen/FieldBytes.lean and Secp/Gen/ScalarBytes.lean (the byte-level functions of the two internal packages).
+func genBytesMode(outDir string) {
+	slMode = "field"
+	gf := newSlGen(modPath+"/internal/field", "field", "FiatField", "field", "GenFieldBytes")
+	fieldRoots := []string{"bytesToInts", "bytesToNonMontgomery", "nonMontgomeryToBytes", "Element.Bytes", "Element.FromBytesWithReduce",
+		"Element.FromBytesNoReduce", "New", "Element.HashToFieldElement"}
+	for _, r := range fieldRoots {
+		gf.bytesRoots[r] = true
+	}
+	for _, r := range fieldRoots {
+		gf.translate(r)
+	}
+	gf.write(filepath.Join(outDir, "FieldBytes.lean"), "GenFieldBytes", "import Secp.PrimBytes\nimport Secp.Gen.FiatField\n",
+		"/-! The byte-level functions of `internal/field` (big-endian bytes <-> limbs, `Bytes`, `FromBytesWithReduce`,\n`FromBytesNoReduce`, `HashToFieldElement`) over the Fiat-mode definitions. -/\n", "",
+		gf.order, fieldRoots)
+
+	slMode = "scalar"
+	gs := newSlGen(modPath+"/internal/scalar", "scalar", "FiatScalar", "scalar", "GenScalarBytes")
+	scalarRoots := []string{"BytesToNonMontgomery", "NonMontgomeryToBytes", "ReduceBytes", "FromBytesNoReduce", "HashToFieldElement"}
+	for _, r := range scalarRoots {
+		gs.bytesRoots[r] = true
+	}
+	for _, r := range scalarRoots {
+		gs.translate(r)
+	}
+	nScalar := len(gs.order)
+
+	slMode = "root"
+	g := newSlGen(modPath, "", "", "root", "GenRoot")
+	g.subs[gf.pkgPath] = gf
+	g.subs[gs.pkgPath] = gs
 	xmdRoots := []string{"checkDST", "i2osp1", "i2osp2", "hashAll", "xorSlices", "vetDSTXMD", "xmd", "expandXMD"}
 	for _, r := range xmdRoots {
 		g.translate(r)
@@ -1685,62 +2343,27 @@ func genBytesMode(outDir string) {
 	for _, r := range groupRoots {
 		g.translate(r)
 	}
-	write := func(file, ns, imports, doc, opens string, names []string, roots []string) {
-		var b strings.Builder
-		b.WriteString(header)
-		b.WriteString(imports + "set_option linter.unusedVariables false\n\n" + doc + "namespace " + ns + "\n" + opens + "\n")
-		done := map[string]bool{}
-		var nt []string
-		for _, n := range names {
-			s := g.sums[n]
-			done[n] = true
-			if s.failed != "" {
-				fmt.Fprintf(&b, "-- NOT TRANSLATED: %s (%s)\n\n", n, s.failed)
-				nt = append(nt, n)
-				continue
-			}
-			b.WriteString(s.text + "\n")
-		}
-		for _, r := range roots {
-			if !done[r] {
-				fmt.Fprintf(&b, "-- NOT TRANSLATED: %s (%s)\n\n", r, g.sums[r].failed)
-				nt = append(nt, r)
-			}
-		}
-		sort.Strings(nt)
-		var wr, ap, sh []string
-		sorted := append([]string{}, names...)
-		sort.Strings(sorted)
-		for _, n := range sorted {
-			s := g.sums[n]
-			if s.failed != "" {
-				continue
-			}
-			for _, p := range s.writes {
-				if s.params[p].kind != kHash {
-					wr = append(wr, fmt.Sprintf("(%q, %q)", n, s.params[p].name))
-				}
-			}
-			for _, p := range s.appends {
-				ap = append(ap, fmt.Sprintf("(%q, %q)", n, s.params[p].name))
-			}
-			for _, p := range s.rets {
-				sh = append(sh, fmt.Sprintf("(%q, %q)", n, s.params[p].name))
-			}
-		}
-		fmt.Fprintf(&b, "/-- functions of the list that could not be translated -/\ndef notTranslated : List String := [%s]\n\n", quoteJoin(nt))
-		fmt.Fprintf(&b, "/-- (function, slice parameter) pairs whose visible bytes the function overwrites -/\ndef callerMemoryWrites : List (String × String) := [%s]\n\n", strings.Join(wr, ", "))
-		fmt.Fprintf(&b, "/-- (function, slice parameter) pairs into whose backing array the function may append -/\ndef callerMemoryAppends : List (String × String) := [%s]\n\n", strings.Join(ap, ", "))
-		fmt.Fprintf(&b, "/-- (function, slice parameter) pairs where the returned slice may share memory with the parameter -/\ndef resultShares : List (String × String) := [%s]\n\n", strings.Join(sh, ", "))
-		b.WriteString("end " + ns + "\n")
-		writeIfChanged(filepath.Join(outDir, file), b.String())
+	nGroup := len(g.order)
+	codecRoots := []string{"Scalar.Encode", "Scalar.Decode", "Scalar.Hex", "Scalar.DecodeHex", "Scalar.MarshalBinary", "Scalar.UnmarshalBinary"}
+	for _, r := range codecRoots {
+		g.translate(r)
 	}
-	write("Xmd.lean", "GenXmd", "import Secp.PrimBytes\n",
+	if len(gs.order) != nScalar {
+		// a function of internal/scalar first reached from the root package: it belongs to ScalarBytes.lean as well
+		scalarRoots = append(scalarRoots, gs.order[nScalar:]...)
+	}
+	gs.write(filepath.Join(outDir, "ScalarBytes.lean"), "GenScalarBytes", "import Secp.PrimBytes\nimport Secp.Gen.FiatScalar\n",
+		"/-! The byte-level functions of `internal/scalar` over the Fiat-mode definitions. -/\n", "",
+		gs.order, scalarRoots)
+	g.write(filepath.Join(outDir, "Xmd.lean"), "GenXmd", "import Secp.PrimBytes\n",
 		"/-! Byte-slice code of `xmd.go` in the `Option` monad over `List Nat` (`none`: the Go code panics or does not\nterminate). `H` is the hash function; a `hash.Hash` value is the list of bytes written since the last `Reset`. -/\n", "",
 		g.order[:nXmd], xmdRoots)
-	write("GroupAPI.lean", "GenGroup", "import Secp.Prim\nimport Secp.Gen.Xmd\nimport Secp.Gen.Curve\nimport Secp.Gen.ElementAPI\n",
+	g.write(filepath.Join(outDir, "GroupAPI.lean"), "GenGroup", "import Secp.Prim\nimport Secp.Gen.Xmd\nimport Secp.Gen.Curve\nimport Secp.Gen.ElementAPI\n",
 		"/-! `HashToScalar`, `HashToGroup`, `EncodeToGroup` of `group.go`: the expander call, the re-slicing and slice-to-array\nconversions of its output, then the regenerated `SSWU`, isogeny and complete addition. -/\n\n/-- the two 48-byte wide reductions (`field.Element.HashToFieldElement`, `scalar.HashToFieldElement`) -/\nstructure HashOps (α : Type) where\n  hashToField : List Nat → α\n  hashToScalar : List Nat → L4\n\n", "open GenXmd\n",
-		g.order[nXmd:], groupRoots)
+		g.order[nXmd:nGroup], groupRoots)
+	g.write(filepath.Join(outDir, "ScalarCodec.lean"), "GenScalarCodec", "import Secp.Spec.Bytes\nimport Secp.Gen.ScalarBytes\n",
+		"/-! `Encode`, `Decode`, `Hex`, `DecodeHex`, `MarshalBinary`, `UnmarshalBinary` of `scalar.go`. An `error` is `none` (nil) or\nthe name of the package's error variable; `encoding/hex` is `Spec.toHex` / `Prim.hexDecodeString`. -/\n", "",
+		g.order[nGroup:], codecRoots)
 }
 
 func quoteJoin(xs []string) string {
